@@ -745,7 +745,18 @@ func (l *Lowerer) builtin(name string, ce *ast.CallExpr) ([]*Term, []types.Type)
 		l.assume(tFalse)
 		return nil, nil
 	case "close":
-		ch, _ := l.tr(ce.Args[0])
+		ch, cht := l.tr(ce.Args[0])
+		if !l.spec {
+			// call-site clauses: "close" for every close, "close.<field or variable>" for the channel closed
+			env := map[string]envEntry{"$channel": {ch, cht}}
+			l.callSiteNamed("close", env, ce)
+			switch x := ast.Unparen(ce.Args[0]).(type) {
+			case *ast.SelectorExpr:
+				l.callSiteNamed("close."+x.Sel.Name, env, ce)
+			case *ast.Ident:
+				l.callSiteNamed("close."+x.Name, env, ce)
+			}
+		}
 		l.chanClose(ch, ce.Args[0], ce)
 		return nil, nil
 	case "print", "println":
